@@ -194,6 +194,9 @@ def use_formatter(ctx, src, which=None):
     return which
 
 
+_PRIVATE = [0]
+
+
 def check_program(ctx, src, origin, must_complete, tag=None, formatter=None):
     from pedal.core.commands import clear_report, contextualize_report
     from pedal.core.report import MAIN_REPORT
@@ -268,6 +271,26 @@ def check_program(ctx, src, origin, must_complete, tag=None, formatter=None):
         ctx.violation('C18|fresh-report-different-issues|%s' % origin_family(origin), case, {'first': i1[:8], 'fresh': i3[:8]})
     if bool(getattr(t3, 'success', False)) != bool(getattr(t1, 'success', False)):
         ctx.violation('C18|fresh-report-different-success', case, '%r vs %r' % (t1.success, t3.success))
+    # ---- the same analysis on a report object of the grader's own: same issues, all of them recorded in THAT report ---------
+    _PRIVATE[0] += 1
+    if _PRIVATE[0] % 4 == 0:
+        from pedal.core.report import Report
+        private = Report()
+        main_before = len(report.feedback) + len(report.ignored_feedback)
+        try:
+            contextualize_report(src, report=private)
+            t4 = tifa_analysis(report=private)
+        except BaseException as e:
+            ctx.violation('C18|private-report-call-raised|%s' % type(e).__name__, case, traceback.format_exc()[-400:])
+            return
+        ctx.count('analyses_on_a_private_report')
+        i4 = issue_list(t4)
+        if i4 != i1:
+            ctx.violation('C18|private-report-different-issues|%s' % origin_family(origin), case, {'default report': i1[:8], 'private report': i4[:8]})
+        strayed = (report.feedback + report.ignored_feedback)[main_before:]
+        if strayed:
+            ctx.violation('C18|issues-of-a-private-report-attached-to-the-default-report', case,
+                          '%d feedback objects landed on the default report: %s' % (len(strayed), sorted({f.label for f in strayed})[:6]))
     if ctx.evaluations % 97 == 0:
         ctx.sample({'origin': origin, 'tag': tag, 'src': src[:300], 'success': t1.success, 'issues': i1[:6]})
 
